@@ -48,16 +48,23 @@ func (d *dupper) DupAttribute(att *AttributeExpr) *AttributeExpr {
 	if att.Meta != nil {
 		metaDup = att.Meta.Dup()
 	}
+	var exDup []*ExampleExpr
+	if att.UserExamples != nil {
+		exDup = make([]*ExampleExpr, len(att.UserExamples))
+		for i, ex := range att.UserExamples {
+			exDup[i] = &ExampleExpr{Summary: ex.Summary, Description: ex.Description, Value: dupValue(ex.Value)}
+		}
+	}
 	dup := AttributeExpr{
 		Type:         d.DupType(att.Type),
 		Description:  att.Description,
-		References:   att.References,
-		Bases:        att.Bases,
+		References:   append([]DataType(nil), att.References...),
+		Bases:        append([]DataType(nil), att.Bases...),
 		Validation:   valDup,
 		Meta:         metaDup,
-		DefaultValue: att.DefaultValue,
+		DefaultValue: dupValue(att.DefaultValue),
 		DSLFunc:      att.DSLFunc,
-		UserExamples: att.UserExamples,
+		UserExamples: exDup,
 		finalized:    att.finalized,
 	}
 	d.ats[&dup] = struct{}{}
@@ -113,4 +120,50 @@ func (d *dupper) DupType(t DataType) DataType {
 		return dp
 	}
 	panic("unknown type " + fmt.Sprintf("%T", t))
+}
+
+// dupValue creates a copy of a default or example value: slices and maps are
+// copied recursively, other values are returned as is.
+func dupValue(val any) any {
+	switch actual := val.(type) {
+	case []any:
+		res := make([]any, len(actual))
+		for i, v := range actual {
+			res[i] = dupValue(v)
+		}
+		return res
+	case ArrayVal:
+		res := make(ArrayVal, len(actual))
+		for i, v := range actual {
+			res[i] = dupValue(v)
+		}
+		return res
+	case map[string]any:
+		res := make(map[string]any, len(actual))
+		for k, v := range actual {
+			res[k] = dupValue(v)
+		}
+		return res
+	case map[any]any:
+		res := make(map[any]any, len(actual))
+		for k, v := range actual {
+			res[k] = dupValue(v)
+		}
+		return res
+	case MapVal:
+		res := make(MapVal, len(actual))
+		for k, v := range actual {
+			res[k] = dupValue(v)
+		}
+		return res
+	case Val:
+		res := make(Val, len(actual))
+		for k, v := range actual {
+			res[k] = dupValue(v)
+		}
+		return res
+	case []string:
+		return append([]string(nil), actual...)
+	}
+	return val
 }
